@@ -18,6 +18,7 @@ REPO = os.environ.get('SKYLLH_REPO', '/repo')
 COQ = os.path.join(VERIF, 'coq')
 BUILD = os.path.join(VERIF, 'build')
 PY = '/venv/bin/python'
+MEM_KB = int(os.environ.get('VERIF_COQ_MEM_KB', str(12 * 1024 * 1024)))   # address-space cap per coqc (a runaway proof must not take the machine down)
 
 FORBIDDEN = re.compile(
     r'\b(Admitted|admit|Axiom|Axioms|Parameter|Parameters|Conjecture|Conjectures|'
@@ -196,7 +197,7 @@ def coq_make(ctx, targets, timeout=3000, modules=None):
         sh([os.path.join(VERIF, 'tools', 'mkcoqproject.sh')], timeout=120)
         ok = True
         for tgt in targets:
-            rc, out, err = sh(['timeout', str(timeout), 'make', '-j8', tgt], cwd=COQ, timeout=timeout + 60)
+            rc, out, err = sh(f'ulimit -v {MEM_KB}; exec timeout {timeout} make -j8 {tgt}', cwd=COQ, timeout=timeout + 60)
             if rc != 0:
                 ok = False
                 txt = out + err
@@ -223,7 +224,7 @@ def check_props(ctx, propfile=None):
         vo = path[:-2] + '.vo'
         if os.path.exists(vo):
             os.remove(vo)
-        rc, out, err = sh(['timeout', '1200', 'make', propfile[:-2] + '.vo'], cwd=COQ, timeout=1300)
+        rc, out, err = sh(f'ulimit -v {MEM_KB}; exec timeout 1200 make {propfile[:-2]}.vo', cwd=COQ, timeout=1300)
     txt = out + err
     if rc != 0:
         m = re.search(r'File "\./([^"]+)", line (\d+), characters [^\n]*\n(.*?)(?:\nmake|\Z)', txt, flags=re.S)
@@ -248,7 +249,8 @@ def check_props(ctx, propfile=None):
     for i, n in enumerate(printed):
         ax = []
         if i < len(blocks) and not blocks[i].startswith('Closed'):
-            ax = re.findall(r'^([A-Za-z_][A-Za-z0-9_\.\']*)\s*:', blocks[i], flags=re.M)
+            ax = [a for a in re.findall(r'^([A-Za-z_][A-Za-z0-9_\.\']*)\s*:', blocks[i], flags=re.M)
+                  if a not in ('Axioms', 'Variables')]   # the block header `Axioms:` is not an axiom name
         ctx.theorems.append({'name': n, 'axioms': ax})
         axioms_all.update(ax)
     unprinted = [n for (k, n) in names if k == 'Theorem' and n not in printed]
